@@ -226,6 +226,9 @@ def run_case(c, out, extra=None):
         if out[-1] != "BUILD ok":
             out.append("BUILD ok")
         out.append("OP 0 err %s" % classify(e))
+        if c.get("report_error_date") and "b" in locals():
+            nw = b.strategy.now
+            out.append("ERRAT now %d" % (int(pd.Timestamp(nw).value // 10 ** 9) if not isinstance(nw, int) else -1))
         if c.get("dump_on_error") and "b" in locals():
             try:
                 dump_tree(out, b.strategy, b.dates)      # the partial run: rows up to the failing date
